@@ -234,6 +234,22 @@ fn c01(a: &Args) -> Report {
             specs.push(t);
         }
     }
+    // many blobs: eleven closed blobs + the active one (ids reach two digits, the default filter
+    // group size of 8 is exceeded), every blob holds a version of k0 with the same timestamp:
+    // the most recently created blob wins, before and after restarts
+    {
+        let mut prefix = Vec::new();
+        for _ in 0..11 {
+            prefix.push(Op::w(0, 1));
+            prefix.push(Op::Rot);
+        }
+        let mb = vec![Op::w(0, 1), Op::w(0, 2), Op::d(0, 1), Op::w(1, 1), Op::Rot, Op::Rst, Op::RstLazy];
+        let mut t = SeqSpec::new("C01/many-blobs", mb, if thorough { 4 } else { 3 });
+        t.prefix = prefix;
+        t.checks = Checks { outcome: true, latest: true, history: true, ..Default::default() };
+        t.keys = vec![0, 1];
+        specs.push(t);
+    }
     // version runs: one key, every sequence of writes / deletes over three timestamps (the
     // insertion path changes beyond four versions of a key), observed in memory, through the
     // on-disk index (after a rotation) and after a restart
@@ -1283,6 +1299,9 @@ fn c12(a: &Args) -> Report {
         Op::Rst,
         Op::KillRst,
         Op::KillRstLazy,
+        Op::TryCreate,
+        // the deferred index dump of a closed blob that took a deletion record fires in-session
+        Op::Tick,
     ];
     let mut specs = Vec::new();
     for md in [Some(0u64), Some(1), Some(64), Some(10_000), None] {
